@@ -1,6 +1,7 @@
 package simharness
 
 import (
+	"github.com/hashicorp/eventlogger/filters/gated"
 	"bytes"
 	"context"
 	"errors"
@@ -325,6 +326,19 @@ func runFanout(rc *RunCtx, o fanOpts) {
 			simrt.Probe("history.failed-reregistration")
 		case 0: // remove
 			if len(model.pipesOfType(typ)) == 0 {
+				continue
+			}
+			if rc.Prop == "C01" && tp.Choose(3, "removal-with-nodes-under-a-done-context") == 0 {
+				// removed together with its nodes by a caller whose context is already done; what the call
+				// REPORTS decides what counts as registered from here on (false: nothing was deleted)
+				cctx, cancel := context.WithCancel(context.Background())
+				cancel()
+				ok, err := broker.RemovePipelineAndNodes(cctx, el.EventType(typ), el.PipelineID(pid))
+				if ok {
+					model.RemovePipelineAndNodes(typ, pid)
+				}
+				desc.History = append(desc.History, fmt.Sprintf("RemovePipelineAndNodes(%s,%s) [context done] = %v, %v", typ, pid, ok, err))
+				simrt.Probe("history.removal-with-nodes-under-done-context")
 				continue
 			}
 			err := broker.RemovePipeline(el.EventType(typ), el.PipelineID(pid))
@@ -1293,6 +1307,14 @@ func runStockSinksTerminate(rc *RunCtx) {
 	defer func() { simrt.SimStdout, simrt.SimStderr = nil, nil }()
 	b.RegisterNode("stdout", &el.FileSink{Path: "/dev/stdout", FileName: "x"})
 	b.RegisterNode("stderr", &el.FileSink{Path: "/dev/stderr", FileName: "x"})
+	// (no-consumer runs only) the first pipeline may start with the library's gated filter, which sends expired
+	// groups through this Broker from inside Process; with every sink required, those inner Sends fail whenever
+	// the channel sink gives up -- an error for the event at hand, nothing more
+	gatedMode := noConsumer && tp.Choose(2, "gated-first-pipeline") == 0
+	if gatedMode {
+		b.RegisterNode("gate", &gated.Filter{Broker: b, Expiration: 2 * time.Millisecond})
+		simrt.Probe("send.gated-filter-with-failing-inner-sends")
+	}
 	sinks := []string{"chan", "w", "null", "stdout", "stderr"}
 	nP := 1 + tp.Choose(3, "npipes")
 	usesChan := 0
@@ -1305,11 +1327,18 @@ func runStockSinksTerminate(rc *RunCtx) {
 		if k == "chan" {
 			usesChan++
 		}
-		if err := b.RegisterPipeline(el.Pipeline{PipelineID: el.PipelineID(fmt.Sprintf("p%d", p)), EventType: "t", NodeIDs: []el.NodeID{"json", el.NodeID(k)}}); err != nil {
+		nids := []el.NodeID{"json", el.NodeID(k)}
+		if gatedMode && p == 0 {
+			nids = append([]el.NodeID{"gate"}, nids...)
+		}
+		if err := b.RegisterPipeline(el.Pipeline{PipelineID: el.PipelineID(fmt.Sprintf("p%d", p)), EventType: "t", NodeIDs: nids}); err != nil {
 			rc.Failf("C03.setup", "", "%v", err)
 			return
 		}
 		pdesc = append(pdesc, "json>"+k)
+	}
+	if gatedMode {
+		b.SetSuccessThresholdSinks("t", nP)
 	}
 	nSenders := 1 + tp.Choose(3, "nsenders")
 	total := 0
@@ -1338,7 +1367,12 @@ func runStockSinksTerminate(rc *RunCtx) {
 					ctx = &detachedCtx{Context: context.Background(), deadline: time.Now().Add(time.Millisecond)}
 					simrt.Probe("send.never-done-context-with-deadline")
 				}
-				b.Send(ctx, "t", &plainPayload{N: i})
+				if gatedMode && i%2 == 0 {
+					b.Send(ctx, "t", &gated.Payload{ID: fmt.Sprintf("g%d", i%3), Flush: i == 2})
+					simrt.Sleep(3*time.Millisecond, "sender:pause") // groups expire between events
+				} else {
+					b.Send(ctx, "t", &plainPayload{N: i})
+				}
 				returned++
 				cancel() // what a caller does once its call has returned
 			}
@@ -1370,4 +1404,112 @@ func runStockSinksTerminate(rc *RunCtx) {
 	if g1 := simrt.Goroutines(); g1 > g0 {
 		rc.Failf("C03.leak", "goroutines-outside-the-simulator", "every Send has returned, every node invocation is over and the channel is drained, yet the process has %d goroutines more than before the run (contexts: %v): something started on behalf of a Send is still there", g1-g0, kinds)
 	}
+}
+
+// ---------------------------------------------------------------- C02: status once concurrent changes are over
+
+func init() {
+	register(&Scenario{Prop: "C02", Name: "status-after-concurrent-change", Run: runStatusAfterConcurrentChange})
+}
+
+// runStatusAfterConcurrentChange: pipelines of an event type are registered and removed WHILE events of that
+// type are being sent. Once all of that has returned, the status of a Send names the sinks of exactly the
+// pipelines registered then (however the earlier Sends and changes overlapped), and a sink threshold equal
+// to their number is met.
+func runStatusAfterConcurrentChange(rc *RunCtx) {
+	tp := rc.Tape
+	sim := rc.Sim
+	b, _ := el.NewBroker()
+	b.RegisterNode("m", &passNode{el.NodeTypeFormatter})
+	const nSinks = 6
+	for i := 0; i < nSinks; i++ {
+		b.RegisterNode(el.NodeID(fmt.Sprintf("k%d", i)), &passNode{el.NodeTypeSink})
+	}
+	def := func(i int) el.Pipeline {
+		return el.Pipeline{PipelineID: el.PipelineID(fmt.Sprintf("p%d", i)), EventType: "t", NodeIDs: []el.NodeID{"m", el.NodeID(fmt.Sprintf("k%d", i))}}
+	}
+	registered := map[int]bool{}
+	n0 := 1 + tp.Choose(3, "initial-pipelines")
+	for i := 0; i < n0; i++ {
+		if err := b.RegisterPipeline(def(i)); err != nil {
+			rc.Failf("C02.setup", "", "%v", err)
+			return
+		}
+		registered[i] = true
+	}
+	// the changes, decided up front: each either registers a pipeline that is not there or removes one that is
+	type change struct {
+		add bool
+		i   int
+	}
+	var changes []change
+	var hist []string
+	for c, nc := 0, 1+tp.Choose(3, "nchanges"); c < nc; c++ {
+		i := tp.Choose(nSinks, "which-pipeline")
+		if registered[i] && len(registered) > 1 {
+			changes = append(changes, change{false, i})
+			delete(registered, i)
+			hist = append(hist, fmt.Sprintf("RemovePipeline(p%d)", i))
+		} else if !registered[i] {
+			changes = append(changes, change{true, i})
+			registered[i] = true
+			hist = append(hist, fmt.Sprintf("RegisterPipeline(p%d)", i))
+		}
+	}
+	nSenders := 1 + tp.Choose(3, "nsenders")
+	for s := 0; s < nSenders; s++ {
+		n := 1 + tp.Choose(3, "nsends")
+		sim.Spawn(fmt.Sprintf("sender%d", s), func() {
+			for i := 0; i < n; i++ {
+				simrt.Yield("sender:step")
+				b.Send(context.Background(), "t", &plainPayload{N: i})
+			}
+		})
+	}
+	sim.Spawn("changer", func() {
+		for _, c := range changes {
+			simrt.Yield("changer:step")
+			var err error
+			if c.add {
+				err = b.RegisterPipeline(def(c.i))
+			} else {
+				err = b.RemovePipeline("t", el.PipelineID(fmt.Sprintf("p%d", c.i)))
+			}
+			if err != nil {
+				rc.Failf("C02.setup", "change", "%v", err)
+			}
+		}
+	})
+	rc.Desc = map[string]interface{}{"initial_pipelines": n0, "changes_while_sending": hist, "senders": nSenders}
+	sim.Run(nil)
+	rc.NonTrivial = len(changes) > 0
+	if sim.Stuck {
+		rc.Failf("C02.stuck", stuckClass(sim), "%s", strings.Join(sim.StuckInfo, "; "))
+		return
+	}
+	var want []string
+	for i := range registered {
+		want = append(want, fmt.Sprintf("k%d", i))
+	}
+	sort.Strings(want)
+	if err := b.SetSuccessThresholdSinks("t", len(want)); err != nil {
+		rc.Failf("C02.setup", "", "%v", err)
+		return
+	}
+	simrt.Probe("status.after-concurrent-change")
+	sim.Spawn("afterwards", func() {
+		for k := 0; k < 2; k++ {
+			st, err := b.Send(context.Background(), "t", &plainPayload{N: 100 + k})
+			var got []string
+			for _, id := range st.CompleteSinks() {
+				got = append(got, string(id))
+			}
+			sort.Strings(got)
+			if strings.Join(got, ",") != strings.Join(want, ",") || err != nil || len(st.Warnings) > 0 {
+				rc.Failf("C02.status", "after-concurrent-change", "all concurrent Sends and changes (%v) have returned; a Send made now reports the sinks %v (error %v, %d warnings), the registered pipelines' sinks are %v and the sink threshold is %d", hist, got, err, len(st.Warnings), want, len(want))
+				return
+			}
+		}
+	})
+	sim.Run(nil)
 }
